@@ -13,7 +13,7 @@ import (
 )
 
 var detStdlib = map[string]bool{
-	"time.Date": true, "strconv.Itoa": true,
+	"time.Date": true, "strconv.Itoa": true, "strings.ToLower": true, "strings.ToUpper": true,
 	"(time.Time).Year": true, "(time.Time).Month": true, "(time.Time).Day": true, "(time.Time).Hour": true,
 	"(time.Time).Minute": true, "(time.Time).Second": true, "(time.Time).Nanosecond": true, "(time.Time).Location": true,
 	"(time.Time).AddDate": true, "(time.Time).Add": true, "(time.Time).Weekday": true, "(time.Time).YearDay": true,
